@@ -823,6 +823,7 @@ fn exact_and_sweep(rng: &mut StdRng, quick: bool, seed: u64, push: &mut dyn FnMu
                 push(c);
             }
         }
-        k += step as i64;
+        // (finer grid in the subnormal range and next to the overflow threshold)
+        k += if k < -1016 || k >= 996 { (step as i64).min(2) } else { step as i64 };
     }
 }
